@@ -204,7 +204,6 @@ theorem stepAll_cons (i : Bool) (p : Aff Fq) (cs : List Coeff) (rest : List (Aff
     cases h2 : ellAll rest g with
     | none =>
       cases i <;> simp [stepAll, h2]
-      cases ell1 p cs1 f1 <;> rfl
     | some y =>
       obtain ⟨g1, rest1⟩ := y
       cases i with
